@@ -8,6 +8,7 @@ import (
 	"math"
 	"strconv"
 	"strings"
+	"time"
 
 	"github.com/biogo/biogo/alphabet"
 	"github.com/biogo/biogo/feat"
@@ -42,7 +43,35 @@ type BedFile struct {
 	N     int      `json:"n"`
 	M     int      `json:"m"`
 	Route int      `json:"route,omitempty"` // see GenRoute
-	Recs  []BedRec `json:"recs"`
+	// Generic: the values handed to the writer are not the package's BedN structs
+	// but some other feat.Feature located on a bed.Chrom (the writer's second
+	// path): 1 = it also has a score and an orientation, 2 = it has neither
+	// (columns 5 and 6 are then written as 0 and "."). Only for M <= 6.
+	Generic int      `json:"generic,omitempty"`
+	Recs    []BedRec `json:"recs"`
+}
+
+// genericFeat is a feature that is not one of the BED structs.
+type genericFeat struct{ r BedRec }
+
+func (g genericFeat) Start() int             { return g.r.Start }
+func (g genericFeat) End() int               { return g.r.End }
+func (g genericFeat) Len() int               { return g.r.End - g.r.Start }
+func (g genericFeat) Name() string           { return g.r.Name }
+func (g genericFeat) Description() string    { return "a feature of another package" }
+func (g genericFeat) Location() feat.Feature { return bed.Chrom(g.r.Chrom) }
+
+type scoredFeat struct{ genericFeat }
+
+func (g scoredFeat) Score() int                    { return g.r.Score }
+func (g scoredFeat) Orientation() feat.Orientation { return feat.Orientation(g.r.Strand) }
+
+// effective returns the record as the file is expected to hold it.
+func (f BedFile) effective(r BedRec) BedRec {
+	if f.Generic == 2 {
+		r.Score, r.Strand = 0, 0
+	}
+	return r
 }
 
 // readAllFeat drives a feature reader to io.EOF, directly or through
@@ -138,6 +167,9 @@ func GenBedFile(t *rapid.T, maxRecs int) BedFile {
 	if rapid.Bool().Draw(t, "bed-narrower") {
 		f.M = rapid.SampledFrom(ms).Draw(t, "bed-m")
 	}
+	if f.M <= 6 && rapid.IntRange(0, 2).Draw(t, "bed-generic") == 0 {
+		f.Generic = rapid.IntRange(1, 2).Draw(t, "bed-generic-kind")
+	}
 	n := rapid.IntRange(0, maxRecs).Draw(t, "nrecs")
 	for i := 0; i < n; i++ {
 		r := BedRec{
@@ -203,7 +235,14 @@ func (f BedFile) WriteLib() ([]byte, error) {
 	}
 	for i, r := range f.Recs {
 		before := buf.Len()
-		n, err := w.Write(r.Value(f.N))
+		var v feat.Feature = r.Value(f.N)
+		switch f.Generic {
+		case 1:
+			v = scoredFeat{genericFeat{r}}
+		case 2:
+			v = genericFeat{r}
+		}
+		n, err := w.Write(v)
 		if err != nil {
 			return nil, fmt.Errorf("write-error: record %d: %v", i, err)
 		}
@@ -218,6 +257,7 @@ func (f BedFile) WriteLib() ([]byte, error) {
 func (f BedFile) Text(eol string, finalEOL bool) []byte {
 	var b bytes.Buffer
 	for i, r := range f.Recs {
+		r = f.effective(r)
 		cols := []string{r.Chrom, strconv.Itoa(r.Start), strconv.Itoa(r.End), r.Name, strconv.Itoa(r.Score), seq.Strand(r.Strand).String(),
 			strconv.Itoa(r.ThickStart), strconv.Itoa(r.ThickEnd), "0", strconv.Itoa(len(r.BlockSizes)), joinInts(r.BlockSizes), joinInts(r.BlockStarts)}
 		if r.Opaque {
@@ -254,7 +294,7 @@ func (f BedFile) ReadCompare(data []byte) error {
 		return fmt.Errorf("record-count: wrote %d records, read %d", len(f.Recs), len(got))
 	}
 	for i := range got {
-		if err := bedEqual(got[i], f.Recs[i], f.M); err != nil {
+		if err := bedEqual(got[i], f.effective(f.Recs[i]), f.M); err != nil {
 			return fmt.Errorf("field: record %d: %v", i, err)
 		}
 	}
@@ -455,6 +495,7 @@ func GenGffFile(t *rapid.T, maxItems int) GffFile {
 				it.Start = rapid.IntRange(-1000, -1).Draw(t, "region-start-negative")
 			}
 			it.End = it.Start + rapid.IntRange(1, 100000).Draw(t, "region-len")
+			it.AttrsNil = rapid.Bool().Draw(t, "region-via-metadata") // written by WriteMetaData(*Feature) instead of Write(*Region)
 		case 1:
 			it.Kind = "type"
 			it.Mol = rapid.SampledFrom(mols).Draw(t, "mol")
@@ -469,9 +510,20 @@ func GenGffFile(t *rapid.T, maxItems int) GffFile {
 			l := molAlphabet(it.Mol).Letters()
 			it.Pat = genPat(t, strings.ToLower(l)+strings.ToUpper(l), it.Len)
 		case 3:
-			it.Kind = "comment"
-			if rapid.Bool().Draw(t, "comment-nonempty") {
-				it.Text = genText(t, "comment", 1, 20, true)
+			switch rapid.IntRange(0, 3).Draw(t, "meta-kind") {
+			case 0:
+				// ##date line (written through WriteMetaData(time.Time), day precision)
+				it.Kind = "date"
+				it.Start = rapid.IntRange(1, 3000).Draw(t, "year")*10000 + rapid.IntRange(1, 12).Draw(t, "month")*100 + rapid.IntRange(1, 28).Draw(t, "day")
+			case 1:
+				// ##source-version line (written through WriteMetaData(string))
+				it.Kind = "source-version"
+				it.Text = genBlankFreeToken(t, "srcver-prog") + " " + genBlankFreeToken(t, "srcver-ver")
+			default:
+				it.Kind = "comment"
+				if rapid.Bool().Draw(t, "comment-nonempty") {
+					it.Text = genText(t, "comment", 1, 20, true)
+				}
 			}
 		default:
 			it.Kind = "feature"
@@ -536,6 +588,11 @@ func (it GffItem) letters() string {
 	return SeqRec{Pat: it.Pat, Len: it.Len}.Letters()
 }
 
+// date of a "date" item (stored as yyyymmdd in Start).
+func (it GffItem) date() time.Time {
+	return time.Date(it.Start/10000, time.Month(it.Start/100%100), it.Start%100, 0, 0, 0, 0, time.UTC)
+}
+
 func (it GffItem) feature() *gff.Feature {
 	g := &gff.Feature{SeqName: it.SeqName, Source: it.Source, Feature: it.Feature, FeatStart: it.Start, FeatEnd: it.End,
 		FeatStrand: seq.Strand(it.Strand), FeatFrame: gff.Frame(it.Frame), Comments: it.Comments}
@@ -566,7 +623,15 @@ func (f GffFile) WriteLib() ([]byte, error) {
 		case "feature":
 			n, err = w.Write(it.feature())
 		case "region":
-			n, err = w.Write(&gff.Region{Sequence: gff.Sequence{SeqName: it.SeqName}, RegionStart: it.Start, RegionEnd: it.End})
+			if it.AttrsNil {
+				n, err = w.WriteMetaData(&gff.Feature{SeqName: it.SeqName, FeatStart: it.Start, FeatEnd: it.End})
+			} else {
+				n, err = w.Write(&gff.Region{Sequence: gff.Sequence{SeqName: it.SeqName}, RegionStart: it.Start, RegionEnd: it.End})
+			}
+		case "date":
+			n, err = w.WriteMetaData(it.date())
+		case "source-version":
+			n, err = w.WriteMetaData("source-version " + it.Text)
 		case "type":
 			if it.SeqName != "" {
 				n, err = w.WriteMetaData(gff.Sequence{SeqName: it.SeqName, Type: parseMol(it.Mol)})
@@ -699,6 +764,10 @@ func (f GffFile) Text(eol string, finalEOL bool) []byte {
 			lines = append(lines, "##end-"+it.Mol)
 		case "comment":
 			lines = append(lines, "# "+it.Text)
+		case "date":
+			lines = append(lines, fmt.Sprintf("##date %04d-%d-%02d", it.Start/10000, it.Start/100%100, it.Start%100))
+		case "source-version":
+			lines = append(lines, "##source-version "+it.Text)
 		}
 	}
 	var b bytes.Buffer
@@ -720,6 +789,10 @@ func (f GffFile) ReadCompare(data []byte) error {
 	}
 	curType := feat.Undefined
 	idx := 0
+	var wantDate time.Time
+	var wantSrc string
+	haveDate, haveSrc := false, false
+	defer func() { _, _, _, _ = wantDate, wantSrc, haveDate, haveSrc }()
 	next := func() (feat.Feature, error) {
 		if idx >= len(all) {
 			return nil, io.EOF
@@ -729,6 +802,14 @@ func (f GffFile) ReadCompare(data []byte) error {
 	for i, it := range f.Items {
 		switch it.Kind {
 		case "comment":
+			continue
+		case "date":
+			wantDate = it.date()
+			haveDate = true
+			continue
+		case "source-version":
+			wantSrc = it.Text
+			haveSrc = true
 			continue
 		case "type":
 			curType = parseMol(it.Mol)
@@ -781,6 +862,13 @@ func (f GffFile) ReadCompare(data []byte) error {
 	got, err := next()
 	if err != io.EOF {
 		return fmt.Errorf("record-count: expected io.EOF after %d items, got %v, %v", idx, got, err)
+	}
+	// the reader's view of the metadata lines it consumed on the way
+	if haveDate && !r.Date.Equal(wantDate) {
+		return fmt.Errorf("metadata: reader holds date %v after the file, the last ##date line says %v", r.Date, wantDate)
+	}
+	if haveSrc && r.SourceVersion != wantSrc {
+		return fmt.Errorf("metadata: reader holds source version %q, the last ##source-version line says %q", r.SourceVersion, wantSrc)
 	}
 	return nil
 }
